@@ -1,5 +1,5 @@
 /*UNIT
-{"props": ["C10","C06"], "kind": "K1", "tier": "quick", "timeout": 1200,
+{"props": ["C10"], "kind": "K1", "tier": "quick", "timeout": 1200,
  "loop_contracts": true, "cbmc": ["--unwind", "20", "--sat-solver", "cadical"],
  "extra_src": ["stubs/mem_ranges.c"], "defines": ["VERIF_MEM_HAVOC_SLICE"],
  "replace": ["ZSTD_compressContinue_public", "ZSTD_compressEnd_public", "ZSTD_CCtx_reset"],
